@@ -11,7 +11,7 @@ use ark_poly_commit::{LabeledCommitment, LabeledPolynomial, PCCommitterKey, Poly
 use ark_serialize::CanonicalDeserialize;
 use ark_std::rand::Rng;
 
-pub const VERIFIER_KINDS: &[&str] = &["bound-mislabelled", "bound-mislabelled-both", "bound-label-dropped", "shifted-dropped", "shifted-swapped", "shifted-other-bound", "unbounded-gets-label"];
+pub const VERIFIER_KINDS: &[&str] = &["prover-other-trim", "bound-mislabelled", "bound-mislabelled-both", "bound-label-dropped", "shifted-dropped", "shifted-swapped", "shifted-other-bound", "unbounded-gets-label"];
 pub const PROVER_KINDS: &[&str] = &["commit-degree-exceeds-bound", "commit-bound-not-enforced", "commit-no-bounds-in-key", "commit-degree-exceeds-supported", "commit-bound-above-supported", "open-degree-exceeds-bound", "open-bound-not-enforced"];
 
 pub fn generate(run_seed: u64) -> Scenario {
@@ -131,6 +131,44 @@ pub fn run<S: Scheme>(scn: &Scenario, log: &EventLog) -> RunResult {
                             }
                         } else {
                             Some(relabel::<S>(&mine, mine.commitment().clone(), Some(d)))
+                        }
+                    }
+                }
+                ("prover-other-trim", Some(d)) => {
+                    // byzantine prover trims the SAME universal parameters to a larger supported degree
+                    // s+k with bound d+k (same distance between supported degree and bound), commits to a
+                    // polynomial of degree in (d, d+k] there and presents it to this verifier labelled d
+                    let room = cfg.max_degree.saturating_sub(cfg.supported_degree);
+                    if room == 0 || fam == Family::Ipa || !matches!(op, Op::Open { .. }) { None } else {
+                        let k = 1 + f.aux % room;
+                        let (s2, d2) = (cfg.supported_degree + k, d + k);
+                        let hid = match (fam, scn.polys[p].hiding) { (Family::Sonic, Some(h)) => Some(h.min(d2).max(1)), (_, h) => h };
+                        let spec = PolySpec { label: label.clone(), shape: Shape::Dense, degree: d + 1 + (f.param as usize) % k, degree_bound: Some(d2), hiding: hid, coeff_id: 8000 + fi as u64 };
+                        let q = LabeledPolynomial::new(label.clone(), S::P::build(cfg, &spec, scn.seed), Some(d2), hid);
+                        let made = match Pp::<S>::deserialize_with_mode(&sess.pp_bytes[..], compress_of(&scn.env), ark_serialize::Validate::No).ok() {
+                            None => None,
+                            Some(pp) => match step(|| PcOf::<S>::trim(&pp, s2, cfg.supported_hiding, Some(&[d2]))) {
+                                Outcome::Ok((ck2, _)) => match step(|| PcOf::<S>::commit(&ck2, [&q], Some(&mut rng))) {
+                                    Outcome::Ok((mut c, mut st)) if c.len() == 1 => Some((ck2, c.pop().unwrap(), st.pop().unwrap())),
+                                    _ => None,
+                                },
+                                _ => None,
+                            },
+                        };
+                        match (made, op) {
+                            (Some((ck2, c2, st2)), Op::Open { polys: idx, point }) if idx.len() == 1 => {
+                                // the byzantine prover shares the verifier's transcript state
+                                let mut sp = sess.verifier.sponge.fork();
+                                let z = &sess.points[*point];
+                                match step(|| PcOf::<S>::open(&ck2, [&q], [&c2], z, &mut sp, [&st2], Some(&mut rng))) {
+                                    Outcome::Ok(proof) => {
+                                        bad_claim = Some(Claim::Open { labels: vec![label.clone()], point: z.clone(), values: vec![q.polynomial().eval_ref(z)], proof });
+                                        Some(relabel::<S>(&mine, c2.commitment().clone(), Some(d)))
+                                    }
+                                    o => { res.stats.probe(&format!("byzantine-prover-{}", o.kind())); None }
+                                }
+                            }
+                            _ => None,
                         }
                     }
                 }
